@@ -167,9 +167,9 @@ fn c27_cases(tier: Tier) -> Vec<String> {
     let refs = ["a", "b[1]", "c"];
     let srcs = ["a", "b[1]", "c", "1", "-2", "1.5"];
     let exprs: Vec<&str> = if tier == Tier::Quick {
-        vec!["1.5", "a", "b[1]*2", "sin(a)+c[2]", "-(%v+pi)", "a^a", "cis(b[0])/(c-1)"]
+        vec!["1.5", "a", "b[1]*2", "sin(a)+c[2]", "-(%v+pi)", "a^a", "cis(b[0])/(c-1)", "a+sin(2*b[1])", "1.5*-(b+c[1])"]
     } else {
-        vec!["1.5", "a", "b[1]*2", "sin(a)+c[2]", "-(%v+pi)", "a^a", "cis(b[0])/(c-1)", "(a+b)*(c-a)", "sqrt(-a[3])", "exp(cos(c))", "2^(b*b)", "%x*a[1]", "pi", "-c", "(1+2)*3"]
+        vec!["1.5", "a", "b[1]*2", "sin(a)+c[2]", "-(%v+pi)", "a^a", "cis(b[0])/(c-1)", "a+sin(2*b[1])", "1.5*-(b+c[1])", "(a+b)*(c-a)", "sqrt(-a[3])", "exp(cos(c))", "2^(b*b)", "%x*a[1]", "pi", "-c", "(1+2)*3"]
     };
     for d in refs {
         for src in srcs {
